@@ -27,7 +27,13 @@ pub const WRAPPERS: &[&str] = &[
 ];
 
 pub const GAPS: &[&str] = &[" ", "\n", "\n    ", " ; c (\n", "\r\n"];
-pub const PRECEDING: &[&str] = &["", "(define pre1 1)\n", "(define (pre2 a)\n  (list a a)) ; trailing\n\n  (define pre3 (pre2 1))\n"];
+pub const PRECEDING: &[&str] = &[
+    "",
+    "(define pre1 1)\n",
+    "(define (pre2 a)\n  (list a a)) ; trailing\n\n  (define pre3 (pre2 1))\n",
+    // tokens that span lines: a string literal and a |symbol| with raw line breaks inside
+    "(define pre4 \"first line\n  second line\\\" still\nthird\")\n(define pre5 '|a\nb|) ; c\n",
+];
 
 /// crude token splitter for harness-authored text (parens, quote, strings, #\c, atoms)
 pub fn tokens(text: &str) -> Vec<String> {
